@@ -94,3 +94,32 @@ def patch_random(tape):
     import bellows.ezsp.v4
 
     bellows.ezsp.v4.random = TapeRandom(tape)
+
+
+class _SortedSchema:
+    """voluptuous fills in defaults for missing keys by iterating a *set* of markers, so the order in which bellows applies its EZSP policies
+    (and with it sequence numbers and timing) depends on PYTHONHASHSEED. Order of the result pinned (sorted by key); contents untouched."""
+
+    def __init__(self, schema):
+        self._schema = schema
+
+    def __call__(self, data):
+        out = self._schema(data)
+        return dict(sorted(out.items(), key=lambda kv: str(kv[0])))
+
+    def __getattr__(self, name):
+        return getattr(self._schema, name)
+
+
+def pin_policy_order():
+    import importlib
+
+    from bellows.config import CONF_EZSP_POLICIES
+
+    for v in range(4, 15):
+        mod = importlib.import_module(f"bellows.ezsp.v{v}")
+        cls = getattr(mod, f"EZSPv{v}")
+        sch = cls.SCHEMAS.get(CONF_EZSP_POLICIES)
+        if sch is not None and not isinstance(sch, _SortedSchema):
+            cls.SCHEMAS = dict(cls.SCHEMAS)
+            cls.SCHEMAS[CONF_EZSP_POLICIES] = _SortedSchema(sch)
